@@ -231,6 +231,16 @@ impl Scenario for ReplyScenario {
                 if rng.bool() {
                     headers.insert(0, class_header(rng.range(1, 3) as u8, None));
                 }
+                if rng.chance(1, 4) {
+                    // every header is fine - there are just more of them than the outstation accepts in one READ
+                    headers = (0..rng.urange(65, 70))
+                        .map(|_| {
+                            let (g, v) = *rng.pick(&[(30u8, 1u8), (1, 2), (20, 1), (10, 2)]);
+                            let i = rng.below(3) as u8;
+                            ReqHeader { group: g, var: v, range: Range::Range8(i, i), data: vec![] }
+                        })
+                        .collect();
+                }
                 script.push(Op::Request { func: refapp::FUNC_READ, seq: SeqSel::Next, headers, flags: None, from: Who::Master, to: Dest::Own });
                 if rng.bool() {
                     script.push(Op::Confirm { uns: true, seq: ConfSel::Expected, from: Who::Master });
@@ -549,6 +559,10 @@ fn must_reject(bytes: &[u8]) -> Option<&'static str> {
                     // index-prefixed headers address objects the request would have to carry: nothing to read
                     if headers.iter().any(|h| matches!(h.qualifier, 0x17 | 0x28)) {
                         Some("read-with-index-prefix-qualifier")
+                    } else if headers.len() > 64 && headers.iter().all(|h| h.group != 60 && matches!(h.qualifier, 0x00 | 0x01)) {
+                        // (the documented limit: `max_read_request_headers`, never less than 64; the workload leaves it at 64.
+                        // Every range header takes one of the places; what class headers take is not modelled)
+                        Some("more-read-headers-than-accepted")
                     } else {
                         None
                     }
